@@ -44,7 +44,7 @@ class Facts:
 # --------------------------------------------------------------------------
 # generic-free callee names
 
-_GEN = re.compile(r"::<[^<>]*>")
+_GEN = re.compile(r"::<(?!impl )[^<>]*>")
 
 
 def strip_generics(s):
